@@ -18,7 +18,9 @@ RULE = ('every bundled matrix name (from _submat_files()) in upper, lower and ra
         'cases are matrices of NUMBERS whose literals are written by the model (render_num) under LF/CRLF/CR with or without a final '
         'terminator (render_with); HISTORY cases make several calls in one process with no state reset in between (repeats, other spellings, '
         'str vs Path, same base name in two directories, same content under two paths, a path rewritten with other content, results '
-        'edited by the caller between calls), each call compared with the pure model on the current content; extra relational stream '
+        'edited by the caller between calls), each call compared with the pure model on the current content; "cwdfile" cases write a '
+        'user matrix into a scratch working directory under a bare name that spells a bundled matrix (lower/upper/mixed case) or '
+        'not, and call submat(that name) - the file must win - or another spelling (no file: the name decides); extra relational stream '
         '(no model): 250/1500 files with Greek, Cyrillic, CJK, astral-plane, zero-width and combining letters and non-ASCII comments, '
         'written as UTF-8 and compared with the oracle\'s positional reading of the abstract words; non-trivial = distinct '
         'case with a branch marker')
@@ -34,7 +36,7 @@ TRUSTED = ['CPython text layer (open() in text mode with universal newlines, UTF
 ASSUMPTIONS = ['the locale\'s default text encoding is UTF-8 (as in the sandbox): a file holds the UTF-8 encoding of its text and open(fname) '
                'decodes it; the Coq model works on the DECODED text over code points 0..255 (ASCII + Latin-1 letters, NBSP and NEL as white '
                'space / line boundary); text with letters beyond code point 255 (Greek, Cyrillic, CJK, astral plane) is checked against the '
-               'oracle only; matrix NAMES are ASCII, not absolute paths and do not leave the working directory via ".."',
+               'oracle only; the file system is case-sensitive (./nuc does not make isfile("NUC") true); matrix NAMES are ASCII, not absolute paths and do not leave the working directory via ".."',
                'number syntax of cells restricted to [+-]?D+ (int rows) and [+-]?(D+|D+.D*|.D+) (rows containing a "."); other '
                'forms accepted by int()/float() (underscores, exponents, inf, nan) are outside the domain',
                'header letters and row letters pairwise different (otherwise "the number at that position" is ambiguous)',
@@ -417,6 +419,31 @@ def gen_history(rng):
     return {'op': 'hist', 'steps': steps}
 
 
+def gen_cwdfile(rng, names):
+    """a user's matrix file in the working directory under a bare name that spells a bundled matrix (or not), then
+    submat(<that name>) - the file must win - or submat(<another spelling>), which is no file and resolves by name"""
+    r = rng.random()
+    base = rng.choice(names) if r < 0.8 else rng.choice(['mymatrix', 'blosum63', 'readme', 'my.matrix', 'x'])
+    fname = rng.choice([base, base.lower(), ''.join(ch.lower() if rng.random() < 0.5 else ch.upper() for ch in base)])
+    f = gen_file(rng)
+    f = {k: v for k, v in f.items() if k not in ('op', 'aspath')}
+    call = fname
+    if rng.random() < 0.25:
+        call = rng.choice([fname.upper(), fname.lower(), fname.swapcase()])   # other spelling: not a file (case-sensitive file system)
+    return {'op': 'cwdfile', 'fname': fname, 'call': call, 'file': f, 'aspath': rng.random() < 0.3}
+
+
+def cwd_norm(case):
+    """(file name, called name, text, aspath) with a usable bare file name"""
+    fname = ''.join(ch for ch in str(case.get('fname', '')) if 32 < ord(ch) < 127 and ch != '/') or 'x'
+    if fname in ('.', '..'):
+        fname = 'x'
+    call = case.get('call')
+    call = call if isinstance(call, str) and call and '/' not in call and all(32 < ord(ch) < 127 for ch in call) else fname
+    f = case.get('file') if isinstance(case.get('file'), dict) else {}
+    return fname, call, render(f), bool(case.get('aspath'))
+
+
 def spellings(rng, name, k):
     out = [name, name.lower()]
     while len(out) < k:
@@ -470,6 +497,13 @@ def gen_cases(rng, tier):
         cases.append(gen_history(rng))
     for _ in range(1500 if thorough else 200):
         cases.append(gen_numfile(rng))
+    for n in (names if thorough else ['NUC', 'NUC.4.2', 'NUC.4.4', 'IDENTITY', 'MATCH', 'BLOSUM62', 'PAM250', 'GONNET']):
+        cases.append({'op': 'cwdfile', 'fname': n.lower(), 'call': n.lower(), 'aspath': False,
+                      'file': {'lines': [{'k': 'w', 'w': ['A', 'C'], 'sep': ' ', 'lead': ' ', 'trail': ''},
+                                         {'k': 'w', 'w': ['A', '71', '-72'], 'sep': ' ', 'lead': '', 'trail': ''},
+                                         {'k': 'w', 'w': ['C', '-72', '7.5'], 'sep': ' ', 'lead': '', 'trail': ''}], 'nl': '\n', 'nofinal': False}})
+    for _ in range(1200 if thorough else 150):
+        cases.append(gen_cwdfile(rng, names))
     rng.shuffle(cases)        # spread the heavy bundled cases over the coqc shards
     return cases
 
@@ -617,10 +651,30 @@ def impl_history(case):
     return out
 
 
+def impl_cwdfile(case):
+    from sugar.data import submat
+    _isolate(submat)
+    fname, call, txt, aspath = cwd_norm(case)
+    cwd = os.getcwd()
+    d = tempfile.mkdtemp(prefix='C20-cwd-')
+    try:
+        os.chdir(d)                                   # scratch working directory holding exactly one file
+        with open(fname, 'wb') as f:
+            f.write(file_bytes(txt))
+        if call == fname:
+            return canon_matrix(submat(pathlib.Path(call) if aspath else call))
+        return _call_name(submat, call)               # another spelling: no such file here, the name decides
+    finally:
+        os.chdir(cwd)
+        shutil.rmtree(d, ignore_errors=True)
+
+
 def impl(case):
     from sugar.data import submat
     if case['op'] == 'hist':
         return impl_history(case)
+    if case['op'] == 'cwdfile':
+        return impl_cwdfile(case)
     _isolate(submat)
     if case['op'] == 'name':
         name = case['name']
@@ -654,6 +708,13 @@ OUTSIDE_MODEL = 'out (VL [VB false; VNone])'      # text beyond code point 255: 
 
 
 def model_term(case):
+    if case['op'] == 'cwdfile':
+        fname, call, txt, aspath = cwd_norm(case)
+        if not in_model(txt):
+            return OUTSIDE_MODEL
+        if call == fname:
+            return 'out (run_C20c %s %s)' % (coq_bs(call), coq_bs(txt))
+        return 'out (run_C20 0%%N %s [])' % coq_bs(call)
     if case['op'] == 'file' and not in_model(render(case)):
         return OUTSIDE_MODEL
     if case['op'] == 'hist':
@@ -816,6 +877,12 @@ def spec_history(case, got):
 def spec(case, got):
     if case['op'] == 'hist':
         return spec_history(case, got)
+    if case['op'] == 'cwdfile':
+        fname, call, txt, aspath = cwd_norm(case)
+        if call == fname:                         # the user's file wins over a bundled matrix of that name
+            why = spec(dict(case.get('file') if isinstance(case.get('file'), dict) else {}, op='file', _plain=True), got)
+            return 'file ./%s exists, submat(%r): %s' % (fname, call, why) if why else None
+        return spec({'op': 'name', 'name': call}, got)
     if case['op'] == 'numfile':
         exp = numfile_expected(case)
         if exp is None:
@@ -932,6 +999,11 @@ def nontrivial(case, got):
                 marks.append('hist:repeat')
             seen.add(key)
         return sorted(set(marks)) or ['hist']
+    if case['op'] == 'cwdfile':
+        fname, call, txt, aspath = cwd_norm(case)
+        b = fname.upper() in _bundled()
+        return ['cwd:' + ('bundled-name' if b else 'other-name'), 'cwd:' + ('file-called' if call == fname else 'other-spelling-called')] + \
+            (['path-arg'] if aspath else [])
     if case['op'] == 'numfile':
         letters, rows, e, final = numfile_norm(case)
         return sorted(set(['num:' + e, 'num:final' if final else 'num:no-final-terminator'] +
@@ -985,6 +1057,9 @@ def histkey(case, got):
         acts = plan(case)
         return ['op=hist', 'hist:calls=%d' % len([a for a in acts if a[0] in ('name', 'file')])] + \
             sorted(set('hist:' + a[0] for a in acts))
+    if case['op'] == 'cwdfile':
+        fname, call, txt, aspath = cwd_norm(case)
+        return ['op=cwdfile', 'cwdfile:' + ('shadows-bundled' if fname.upper() in _bundled() else 'plain') + (',called' if call == fname else ',other-spelling')]
     if case['op'] == 'numfile':
         return ['op=numfile', 'numfile:' + numfile_norm(case)[2]]
     if case['op'] == 'name':
@@ -1007,6 +1082,12 @@ def histkey(case, got):
 
 
 def python_snippet(case):
+    if case['op'] == 'cwdfile':
+        fname, call, txt, aspath = cwd_norm(case)
+        return ("import os, tempfile, pathlib; from sugar.data import submat\n"
+                "os.chdir(tempfile.mkdtemp()); open(%r, 'wb').write(%r)\n"
+                "print(submat(%s))   # the file ./%s exists in the working directory") % (
+                    fname, file_bytes(txt), ('pathlib.Path(%r)' % call) if aspath and call == fname else repr(call), fname)
     if case['op'] == 'hist':
         lines = ['import os, tempfile, pathlib', 'from sugar.data import submat',
                  'd = tempfile.mkdtemp(); os.makedirs(d + "/a"); os.makedirs(d + "/b"); os.makedirs(d + "/cwd"); os.chdir(d + "/cwd"); r = {}']
@@ -1032,8 +1113,8 @@ LEVEL_TEXT = ('Machine-checked Coq theorems over the regenerated raw bytes of al
               'against /repo on every run): the model parser returns for every data line, row letter and column index exactly the j-th '
               'number word of that line under the j-th header letter, loses or invents no row or column, and every bundled matrix is '
               'symmetric wherever both entries exist; name resolution is case-insensitive on the regenerated file list, an unknown name '
-              'yields the FileNotFoundError text containing every available name, and the composed function on names never ends in '
-              'ValueError. Unbounded theorems: the same positional reading holds for EVERY file content in the domain (wf_content); for files '
+              'yields the FileNotFoundError text containing every available name, the composed function on names never ends in '
+              'ValueError, and an existing regular file always wins over a bundled name (lookup order, C20_file_wins). Unbounded theorems: the same positional reading holds for EVERY file content in the domain (wf_content); for files '
               'rendered from an abstract layout (comments, blank lines, arbitrary in-line white space; LF, CRLF or CR line ends, with or '
               'without a terminator after the last line) the lines and words seen by the parser are the abstract ones; integers and decimal '
               'literals m/10^k written canonically are read back as exactly (m, k), so a rendered matrix of numbers loads as these numbers. '
